@@ -10,23 +10,27 @@ from .c01 import name_mutants
 def hostile_docs(rng, prog, kind, h, ct, others):
     """(class, document) pairs derived from one well-formed message.
     `others`: [(handler, doc, body)] of other well-formed messages of this program (any kind/part)."""
-    n = h["name"]
+    n = T.wire_name(h["name"])
     body = body_text(h, ct)
     doc = doc_text(h, ct)
     out = [("wellformed", doc)]
     for m in name_mutants(rng, n)[:6]:
         out.append(("unknown-name", "{" + dumps(m) + ":" + body + "}"))
+    # long documents with multi-byte characters at every offset of an error-text window
+    for k in range(96, 136, rng.choice([1, 2, 3])):
+        out.append(("unknown-name-long-utf8", "{\"zz_unknown\":{\"memo\":\"" + "a" * k + "\u00e9\u4e2d\U0001F600" * 3 + "\"}}"))
+    out.append(("unknown-name-long-utf8", "{" + dumps("\u00e9" * rng.randrange(50, 80)) + ":" + body + "}"))
     other_kind = [o for o in others if o[0]["kind"] != kind]
     same_kind_other_part = [o for o in others if o[0]["kind"] == kind and o[0]["part"] != h["part"]]
     same_kind = [o for o in others if o[0]["kind"] == kind and o[0] is not h]
     for o in other_kind[:3]:
-        out.append(("other-kind-name", "{" + dumps(o[0]["name"]) + ":" + body + "}"))
+        out.append(("other-kind-name", "{" + dumps(T.wire_name(o[0]["name"])) + ":" + body + "}"))
         out.append(("other-kind-msg", o[1]))
     out.append(("empty-object", "{}"))
     out.append(("two-keys-unknown", "{" + dumps(n) + ":" + body + ",\"zz_unknown\":{}}"))
     out.append(("two-keys-unknown-first", "{\"aa_unknown\":{}," + dumps(n) + ":" + body + "}"))
     for o in same_kind[:2]:
-        out.append(("two-keys-valid", "{" + dumps(n) + ":" + body + "," + dumps(o[0]["name"]) + ":" + o[2] + "}"))
+        out.append(("two-keys-valid", "{" + dumps(n) + ":" + body + "," + dumps(T.wire_name(o[0]["name"])) + ":" + o[2] + "}"))
     out.append(("dupkey-top-same", "{" + dumps(n) + ":" + body + "," + dumps(n) + ":" + body + "}"))
     out.append(("dupkey-top-bad-first", "{" + dumps(n) + ":7," + dumps(n) + ":" + body + "}"))
     out.append(("dupkey-top-bad-last", "{" + dumps(n) + ":" + body + "," + dumps(n) + ":7}"))
@@ -50,7 +54,7 @@ def hostile_docs(rng, prog, kind, h, ct, others):
     out.append(("truncated", doc[:-1]))
     out.append(("leading-ws", "  \n" + doc + " \n"))
     for o in same_kind_other_part[:2]:
-        out.append(("foreign-body", "{" + dumps(o[0]["name"]) + ":" + body + "}"))
+        out.append(("foreign-body", "{" + dumps(T.wire_name(o[0]["name"])) + ":" + body + "}"))
         out.append(("foreign-name-own-body", "{" + dumps(n) + ":" + o[2] + "}"))
     return out
 
@@ -71,7 +75,7 @@ def check_prog(ctx, r, prog, n_values, skip_classes=()):
     variant_of = {p["id"]: p["variant"] for p in prog["parts"]}
     for kind in KINDS_ENUM:
         parts = [p["id"] for p in prog["parts"]]
-        supported = sorted(h["name"] for h in handlers(prog, kind=kind))
+        supported = sorted(T.wire_name(h["name"]) for h in handlers(prog, kind=kind))
         hs = list(handlers(prog, kind=kind))
         docs = []
         for h in hs:
@@ -117,7 +121,8 @@ def check_prog(ctx, r, prog, n_values, skip_classes=()):
                     # routing: exactly the handler named by the document, of this kind, in that part
                     evs = [e["handler"] for e in dw.get("events", [])]
                     name = next(iter(json.loads(po["json"]).keys()))
-                    if evs != [f"{acc[0]}.{kind}.{name}"]:
+                    exp_h = [h2["hid"] for h2 in handlers(prog, kind=kind, part=acc[0]) if T.wire_name(h2["name"]) == name]
+                    if evs != exp_h:
                         ctx.violate(f"misroute:{sig_cls}", f"{pn} {kind}: document for {acc[0]}.{kind}.{name} ran {evs}", detail)
                     ctx.nontrivial([pn, kind, cls, "acc", d])
             else:
